@@ -16,7 +16,8 @@ import (
 // C02: iterators enumerate exactly the live pairs, in order, for any walk.
 func TestC02(t *testing.T) {
 	p := &dbm.Profile{
-		MinOps: 10, MaxOps: 160, DetPercent: 50,
+		StrictVariants: true,
+		MinOps:         10, MaxOps: 160, DetPercent: 50,
 		W: map[string]int{"put": 24, "del": 10, "batch": 8, "bigbatch": 1, "compact": 3, "reopen": 1, "idle": 2,
 			"snap": 4, "snaprel": 1, "scan": 14, "iter": 4, "iterwalk": 8, "iterrel": 3,
 			"tropen": 1, "trcommit": 1, "trdiscard": 1},
@@ -42,7 +43,8 @@ func TestC02(t *testing.T) {
 // C03: snapshots and iterators are frozen views.
 func TestC03(t *testing.T) {
 	p := &dbm.Profile{
-		MinOps: 15, MaxOps: 200, DetPercent: 50,
+		StrictVariants: true,
+		MinOps:         15, MaxOps: 200, DetPercent: 50,
 		W: map[string]int{"put": 26, "del": 10, "batch": 8, "bigbatch": 1, "compact": 6, "idle": 3,
 			"snap": 8, "snapget": 10, "snaprel": 4, "scan": 4, "iter": 5, "iterwalk": 8, "iterrel": 3, "get": 3, "churn": 1},
 	}
@@ -58,7 +60,8 @@ func TestC03(t *testing.T) {
 // C06: the live table set is always a well-formed LSM tree.
 func TestC06(t *testing.T) {
 	p := &dbm.Profile{
-		MinOps: 20, MaxOps: 300, DetPercent: 50, Tree: true, SlowRemovePercent: 30,
+		StrictVariants: true,
+		MinOps:         20, MaxOps: 300, DetPercent: 50, Tree: true, SlowRemovePercent: 30,
 		W: map[string]int{"put": 34, "del": 10, "batch": 10, "bigbatch": 2, "compact": 4, "reopen": 2, "idle": 2,
 			"snap": 2, "snaprel": 1, "get": 6, "tropen": 1, "trcommit": 2, "trdiscard": 1, "churn": 1, "recover": 1, "sizeof": 2},
 	}
@@ -76,7 +79,8 @@ func TestC06(t *testing.T) {
 // C07: files are deleted only when unneeded, and then they are deleted.
 func TestC07(t *testing.T) {
 	p := &dbm.Profile{
-		MinOps: 20, MaxOps: 260, DetPercent: 60, Files: true, SlowRemovePercent: 30,
+		StrictVariants: true,
+		MinOps:         20, MaxOps: 260, DetPercent: 60, Files: true, SlowRemovePercent: 30,
 		W: map[string]int{"put": 34, "del": 8, "batch": 8, "bigbatch": 2, "compact": 5, "reopen": 2, "idle": 6,
 			"iter": 5, "iterwalk": 6, "iterrel": 2, "snap": 1, "snaprel": 1,
 			"tropen": 1, "trcommit": 1, "trdiscard": 2, "churn": 2, "sizeof": 3},
@@ -105,7 +109,8 @@ func TestC07(t *testing.T) {
 // C11 (sequential part): transactions are isolated, atomic, leave no residue.
 func TestC11(t *testing.T) {
 	p := &dbm.Profile{
-		MinOps: 15, MaxOps: 200, DetPercent: 60, Files: true,
+		StrictVariants: true,
+		MinOps:         15, MaxOps: 200, DetPercent: 60, Files: true,
 		W: map[string]int{"put": 30, "del": 8, "batch": 8, "bigbatch": 3, "get": 6, "trget": 8, "compact": 2, "reopen": 2, "idle": 4,
 			"tropen": 6, "trcommit": 4, "trdiscard": 3, "scan": 4, "snap": 2, "snapget": 2, "snaprel": 1, "iter": 2, "iterwalk": 2, "iterrel": 2},
 	}
@@ -121,7 +126,8 @@ func TestC11(t *testing.T) {
 // C20: the DB neither keeps nor exposes shared buffers across the API boundary.
 func TestC20(t *testing.T) {
 	p := &dbm.Profile{
-		MinOps: 10, MaxOps: 160, DetPercent: 40, Poison: true, SlowFlushPercent: 40,
+		StrictVariants: true,
+		MinOps:         10, MaxOps: 160, DetPercent: 40, Poison: true, SlowFlushPercent: 40,
 		W: map[string]int{"put": 28, "del": 8, "batch": 10, "bigbatch": 1, "get": 16, "trget": 3, "compact": 3, "reopen": 1, "idle": 2,
 			"iter": 3, "iterwalk": 8, "iterrel": 2, "scan": 3, "tropen": 1, "trcommit": 1, "trdiscard": 1},
 	}
